@@ -1,3 +1,4 @@
 //! Protocol-level models: ledger, history interpreter, fault alphabet, forger.
+pub mod forger;
 pub mod history;
 pub mod proto;
